@@ -431,7 +431,7 @@ class TT():
             torchtt.TT: the result.
         """
 
-        if np.isscalar(other) or (tn.is_tensor(other) and tn.numel(other) == 1):
+        if (np.isscalar(other) and not isinstance(other, str)) or (tn.is_tensor(other) and tn.numel(other) == 1):
             # the second term is a scalar
             cores = []
 
@@ -562,7 +562,7 @@ class TT():
         Returns:
             torchtt.TT: the result.
         """
-        if np.isscalar(other) or (tn.is_tensor(other) and tn.numel(other) == 1):
+        if (np.isscalar(other) and not isinstance(other, str)) or (tn.is_tensor(other) and tn.numel(other) == 1):
             # the second term is a scalar
             cores = []
 
@@ -764,7 +764,7 @@ class TT():
                     'Second operand must be the same type as the fisrt (both should be either TT matrices or TT tensors).')
             result = TT(cores_new)
 
-        elif np.isscalar(other) or isinstance(other, tn.Tensor):
+        elif (np.isscalar(other) and not isinstance(other, str)) or (isinstance(other, tn.Tensor) and tn.numel(other) == 1):
             if other != 0:
                 cores_new = [c+0 for c in self.cores]
                 cores_new[0] *= other
@@ -918,7 +918,7 @@ class TT():
         Returns:
             torchtt.TT: the result.
         """
-        if np.isscalar(other) or (tn.is_tensor(other) and tn.numel(other) == 1):
+        if (np.isscalar(other) and not isinstance(other, str)) or (tn.is_tensor(other) and tn.numel(other) == 1):
             # divide by a scalar
             cores_new = self.cores.copy()
             cores_new[0] = cores_new[0] / other
